@@ -74,6 +74,15 @@ def currentCfg : Cfg :=
     prepareSwapsEmpty := [C09.kvPrepareFlushCalls, C09.schemaPrepareFlushCalls, C09.invertedPrepareFlushCalls,
       C09.forwardPrepareFlushCalls].all (·.contains "immutable.IsEmpty") }
 
+/-- do the three places that KEEP a name copy it? `createValue` stores the dictionary entry under
+`string(key)`, `genTagKeyID` appends `tag.Meta{Key: string(tagKey)}`, and the write path hands field names
+over as `field.Name(itr.f.Name())` — three copying conversions of a byte slice. (The zero-copy helper
+`strutil.ByteSlice2String` keeps a reference into the caller's buffer.) -/
+def currentNamesCopied : Bool :=
+  C09.kvStoredKeyExprs == ["string(key)"] &&
+  C09.schemaStoredTagKeyExprs == ["string(tagKey)"] &&
+  C09.rowFieldNextNameExprs == ["field.Name(itr.f.Name())"]
+
 /-- default limits as the source has them now -/
 def currentLimits : Limits :=
   { maxFields := C09.defaultMaxFieldsPerMetric, maxTags := C09.defaultMaxTagsPerMetric,
